@@ -16,7 +16,7 @@ pub struct Case {
 
 pub struct C15;
 
-pub const TESTDATA: [&str; 6] = ["alphabet.bin", "args.bin", "binary_without_symbols.bin", "c_loop.bin", "hello_world.bin", "trace.bin"];
+pub const TESTDATA: [&str; 8] = ["alphabet.bin", "args.bin", "c_loop.bin", "exit_c.bin", "exit_c_no_symbols.bin", "fib_c_nostdlib.bin", "hello_world.bin", "trace.bin"];
 
 pub fn check_loaded(d: &ElfDesc, file: &[u8], lay: &elfb::Layout, ax: &Axecutor) -> Result<(), (String, String)> {
     let areas = ax.verif_areas();
@@ -171,7 +171,7 @@ impl Property for C15 {
         out
     }
     fn rule(&self) -> String {
-        "cases: ELF64-LE ET_EXEC/EM_X86_64 files constructed from a description — 1–5 PT_LOAD in shuffled order on distinct (possibly adjacent) pages, p_offset ≡ p_vaddr (mod 4096) incl. unaligned p_vaddr, p_filesz ∈ {0,1,…,3 pages}, p_memsz ∈ {= filesz, bss tail, page multiples, one over, ending on a page boundary}, all 8 flag masks, optional PT_NOTE/PT_GNU_STACK/PT_NULL/PT_PHDR, entry inside a segment, optional .symtab/.strtab with named, unnamed, undefined and same-address symbols, with and without section headers; the repository's six test binaries are fixed cases; oracle: read the description back (file bytes at p_vaddr, zero up to p_memsz, mask = p_flags, RIP = e_entry, every defined symbol's address resolves to a name defined there, areas disjoint); non-trivial = ≥2 loadable segments, a bss tail or a symbol table; distinct by hash(description)".into()
+        "cases: ELF64-LE ET_EXEC/EM_X86_64 files constructed from a description — 1–5 PT_LOAD in shuffled order on distinct (possibly adjacent) pages, p_offset ≡ p_vaddr (mod 4096) incl. unaligned p_vaddr, p_filesz ∈ {0,1,…,3 pages}, p_memsz ∈ {= filesz, bss tail, page multiples, one over, ending on a page boundary}, all 8 flag masks, optional PT_NOTE/PT_GNU_STACK/PT_NULL/PT_PHDR, entry inside a segment, optional .symtab/.strtab with named, unnamed, undefined and same-address symbols, with and without section headers; the repository's eight test binaries are fixed cases; oracle: read the description back (file bytes at p_vaddr, zero up to p_memsz, mask = p_flags, RIP = e_entry, every defined symbol's address resolves to a name defined there, areas disjoint); non-trivial = ≥2 loadable segments, a bss tail or a symbol table; distinct by hash(description)".into()
     }
     fn required_classes(&self, _tier: Tier) -> Vec<String> {
         ["unaligned-vaddr", "bss-tail", "symtab", "no-section-headers", "loads:1", "loads:5", "testdata"].iter().map(|s| s.to_string()).collect()
